@@ -539,6 +539,8 @@ namespace adept {
 	  Type val = rhs.scalar_value();
 	  int dim;
 	  static const int last = Rank-1;
+	  // One operation is pushed per element
+	  ADEPT_ACTIVE_STACK->check_space(dimensions_.size());
 	  do {
  	    coords[last] = 0;
 	    // Convert between the coordinates of the IndexedArray
